@@ -566,7 +566,16 @@ func ({short_name} {full_name}) MarshalJSON() ([]byte, error) {{
 }
 
 fn write_comment(w: &mut dyn Write, indent: usize, comment: &str) -> std::io::Result<()> {
-    writeln!(w, "{}// {}", "\t".repeat(indent), comment)?;
+    // A doc comment written as `/** .. */` or `#[doc = ".."]` may span lines: every line
+    // has to be a comment line of its own.
+    for line in comment.split('\n') {
+        writeln!(
+            w,
+            "{}// {}",
+            "\t".repeat(indent),
+            line.trim_end_matches('\r')
+        )?;
+    }
     Ok(())
 }
 
